@@ -396,5 +396,22 @@ def run(ctx):
                 odd.append((n_.replace("pgcat::", ""), regex_recipe(b_)))
     ro.check(pv is not None and not odd, "regex:validator-and-use-agree", "the routing regexes are compiled in pool.rs with the same constructor and limits as in Pool::validate (%d regex construction sites in the crate)" % n_regex_sites,
              "a routing regex is compiled with other limits than the ones Pool::validate tried it with (%s vs validate %s): a pattern that validate() accepts can fail to compile - and panic on the unwrap - when the pools are built" % (odd, v_recipe))
+    # what the validator looked at is what the pools get: a validator that checks a transformed copy of a field (quotes stripped, case folded)
+    # stores that copy back, otherwise the value that was vouched for is not the value in use
+    if pv is not None:
+        ntr = 0
+        for c in pv.calls("re:^alloc::str::<impl str>::(replace|replacen|to_lowercase|to_uppercase|to_ascii_lowercase|to_ascii_uppercase)$", "re:^core::str::<impl str>::(trim|trim_matches|trim_start_matches|trim_end_matches|strip_prefix|strip_suffix)$"):
+            flds = {p_[1:] for o in origins(pv, c.args[0], taint=True) if o.kind in ("place", "param") and o.what == 1 for p_ in o.proj if p_.startswith(".") and not p_[1:].isdigit()}
+            flds = {f for f in flds if f in allcfg}
+            if not flds:
+                continue
+            ntr += 1
+            for f in sorted(flds):
+                back = [blk for blk, i, st in pv.assigns() if proj_fields(st["lhs"])[-1:] == [f] and st["lhs"]["l"] == 1
+                        and any(o.kind == "call" and o.call.block == c.block for o in origins(pv, st["rv"].get("op") or (st["rv"].get("ops") or [None])[0], taint=True))]
+                ro.check(bool(back), "normalised-value-stored:" + f, "Pool::validate stores the normalised %s it checked" % f,
+                         "Pool::validate checks a normalised copy of `%s` (%s) but keeps the field as written: the accepted configuration is used with the raw value "
+                         "(a quoted automatic_sharding_key is never matched, every query of the pool silently goes to the default shard)" % (f, c.name.split("::")[-1]), c.where())
+        ro.check(ntr >= 1, "normalising-validators", "%d field normalisation(s) in Pool::validate" % ntr, "expected the quote-stripping of automatic_sharding_key in Pool::validate")
     ro.check(any("contract:bb8:max_size>0" in k for k in seen_keys), "seen:max_size", "bb8 max_size(pool_size) is among the obligations", "expected obligation (bb8 max_size) not enumerated — enumeration lost coverage")
     ro.check(any(k.endswith("|shard_id") and "index" in k for k in seen_keys), "seen:shard-index", "positional indexing by Address.shard is among the obligations", "expected obligation (index by Address.shard) not enumerated")
